@@ -166,6 +166,13 @@ def run(prog, rep, tier):
     if not keep:
         rep.violation(R104, ER + "|keeps-ntf", "EvtxReader does not own the NamedTempFile (it would be deleted before parsing, or leak)")
 
+    # ------------------------------------------------------------ R10.5 (shared instant-preservation lint)
+    import instant
+    R105i = rep.rule("R10.5", "conversions between the window's datetime and the record timestamp preserve the instant")
+    n_sites = instant.check(prog, rep, R105i, lambda p: ('readers::evtxreader' in p or 'data::evtx' in p) and '_tests' not in p, "the -a/-b window applied to .evtx records shifts by the filter's own UTC offset")
+    if n_sites < 2:
+        raise CheckerError("R10.5: only %d chrono conversion sites found in scope (expected at least 2)" % n_sites)
+
     return rep.finish(
         "Static necessary-condition check of the event-log reader: records are indexed in a BTreeMap keyed by (record timestamp, enumerate() "
         "index over records()), leave it with pop_first, the stored Evtx is built from the record whose timestamp is in the key and its dt is that "
